@@ -159,7 +159,7 @@ def run(ctx):
         run_model(ctx, "n3", [2, 2, 1], depth=2)
         run_model(ctx, "n4", [3, 3, 2, 2])
         run_model(ctx, "n4b", [4, 3, 2, 1], product=False)
-        run_model(ctx, "n5", [1, 1, 1, 1, 1], product=False)
+        run_model(ctx, "n5", [1, 1, 1, 1, 1], overlap=False, product=False)
         # all 1.7 M pairs are checked by TLC; 1 in 32 (chosen by fingerprint and seed) is replayed
         run_model(ctx, "n4pairs", [3, 3, 2, 2], depth=2, product=False, mod=32)
     return ctx.finish(rule="one case = one abstract vote / certificate of the signature algebra (honest message, "
